@@ -36,6 +36,10 @@ structure Query (R : Type) where
   nat : P3 R             -- natural coordinates
   depth : R
   gravityNorm : R
+  /-- `world->properties(position_in_cartesian_coordinates.get_array(), depth, {{{1,0,0}}})[0]`: the temperature the whole world
+  gives at the query point, as the `tian water content` composition models ask for it.  `World.props3` fills it in
+  (`World.temperaturePure`); a thunk, so that it is evaluated only where the C++ makes the call. -/
+  worldT : Unit → Except Err R := fun _ => .error .unsupported
   deriving Inhabited
 
 /-- `min_depth_surface`, `max_depth_surface`; `min_depth = minS.minimum`, `max_depth = maxS.maximum`. -/
@@ -212,9 +216,79 @@ def TempModel.get (m : TempModel R) (ctx : Ctx R) (q : Query R) (old fMin fMax :
 /-- `for i in compositions: if compositions[i] == composition_number` → index of the first match -/
 def findComposition (comps : List Nat) (n : Nat) : Option Nat := comps.findIdx? (· == n)
 
+/-! #### `tian water content` (oceanic plate and subducting plate copies; `calculate_water_content` is textually the same in both) -/
+
+/-- `enum LithologyName { peridotite, gabbro, MORB, sediment }` -/
+inductive Lithology
+  | peridotite | gabbro | MORB | sediment
+  deriving Repr, DecidableEq, Inhabited
+
+/-- `parse_entries`: the chain of `if (lithology_string == …)`; any other string leaves `lithology_type` uninitialised (`none`) -/
+def Lithology.ofString (s : String) : Option Lithology :=
+  if s == "peridotite" then some .peridotite
+  else if s == "gabbro" then some .gabbro
+  else if s == "MORB" then some .MORB
+  else if s == "sediment" then some .sediment
+  else none
+
+/-- `LR_poly[lithology_type]` (tian2019_water_content.h) -/
+def Lithology.lrPoly : Lithology → List R
+  | .peridotite => [-19.0609, 168.983, -630.032, 1281.84, -1543.14, 1111.88, -459.142, 95.4143, 1.97246]
+  | .gabbro => [-1.81745, 7.67198, -10.8507, 5.09329, 8.14519]
+  | .MORB => [-1.78177, 7.50871, -10.4840, 5.19725, 7.96365]
+  | .sediment => [-2.03283, 10.8186, -21.2119, 18.3351, -6.48711, 8.32459]
+
+/-- `c_sat_poly[lithology_type]` -/
+def Lithology.cSatPoly : Lithology → List R
+  | .peridotite => [0.00115628, 2.42179]
+  | .gabbro => [-0.0176673, 0.0893044, 1.52732]
+  | .MORB => [0.0102725, -0.115390, 0.324452, 1.41588]
+  | .sediment => [-0.150662, 0.301807, 1.01867]
+
+/-- `Td_poly[lithology_type]` -/
+def Lithology.tdPoly : Lithology → List R
+  | .peridotite => [-15.4627, 94.9716, 636.603]
+  | .gabbro => [-1.72277, 20.5898, 637.517]
+  | .MORB => [-3.81280, 22.7809, 638.049]
+  | .sediment => [2.83277, -24.7593, 85.9090, 524.898]
+
+/-- `for (i = 0; i < poly.size(); ++i) value += poly[i] * std::pow(x, poly.size() - 1 - i)`: the exponent is the number of
+coefficients still to come (an unsigned integer, converted to double by `std::pow`) -/
+def tianPoly (x : R) : List R → R → R
+  | [], acc => acc
+  | c :: cs, acc => tianPoly x cs (acc + c * pow x (Scalar.nat cs.length))
+
+/-- `TianWaterContent::calculate_water_content(pressure, temperature)` -/
+def tianWaterContent (lith : Lithology) (pressure temperature : R) : R :=
+  let lnCSat : R := match lith with
+    | .sediment => tianPoly (Scalar.log10 pressure) (lith.cSatPoly) 0
+    | _ => tianPoly pressure (lith.cSatPoly) 0
+  let lnLR : R := tianPoly ((1 : R) / pressure) (lith.lrPoly) 0
+  let td : R := tianPoly pressure (lith.tdPoly) 0
+  exp lnCSat * exp (exp lnLR * ((1 : R) / temperature - (1 : R) / td))
+
+/-- the parameters of one `tian water content` model -/
+structure TianSpec (R : Type) where
+  density : R
+  lithology : Lithology
+  maxWater : R            -- `initial water content`
+  cutoffPressure : R
+  deriving Inhabited
+
+/-- `lithostatic_pressure = std::max(0.5, std::min(density * 9.81 * depth / 1e9, cutoff_pressure))` (GPa) -/
+def TianSpec.pressure (s : TianSpec R) (depth : R) : R :=
+  Scalar.max (0.5 : R) (Scalar.min (s.density * (9.81 : R) * depth / (1e9 : R)) s.cutoffPressure)
+
+/-- the value the model paints: `std::min(max_water_content, calculate_water_content(lithostatic_pressure, slab_temperature)) / 100` -/
+def TianSpec.value (s : TianSpec R) (depth temperature : R) : R :=
+  let pc := tianWaterContent s.lithology (s.pressure depth) temperature
+  Scalar.min s.maxWater pc / (100 : R)
+
 inductive CompModel (R : Type)
   | uniform (rng : DepthRange R) (op : Op) (comps : List Nat) (fractions : List R)
   | random (rng : DepthRange R) (op : Op) (comps : List Nat) (minValue maxValue : List R)
+  /-- oceanic plate only -/
+  | tianWater (rng : DepthRange R) (op : Op) (comps : List Nat) (spec : TianSpec R)
 
 /-- a source of `std::uniform_real_distribution<>(0,1)` draws from the world's `std::mt19937` -/
 class RandGen (G : Type) (R : Type) where
@@ -252,6 +326,16 @@ def CompModel.get {G : Type} [RandGen G R] (m : CompModel R) (ctx : Ctx R) (q : 
         let b ← liftE (idx maxValue i)
         let c ← drawUniform a b
         return applyOp op old c
+      | none => if op == .replace then return 0.0 else return old
+  | .tianWater rng op comps spec => do
+    match ← liftE (rng.locals ctx q false) with
+    | none => return old
+    | some _ =>
+      -- the world's temperature is asked for before the composition list is looked at
+      let t ← liftE (q.worldT ())
+      let w := spec.value q.depth t
+      match findComposition comps n with
+      | some _ => return applyOp op old w
       | none => if op == .replace then return 0.0 else return old
 
 inductive VelModel (R : Type)
